@@ -106,7 +106,7 @@ fn limit_twin_m<const M: usize>(args: &Args, rep: &mut Report) {
         let hseed = top.next();
         let mut traces: Vec<(Vec<u64>, Vec<String>)> = Vec::new();
         for mode in [2u8, 1u8] {
-            let env = Env { skew: 3, junk: true, scribble: true, quarantine: false, cap: 64 << 20 };
+            let env = Env { skew: 3, junk: !cfg!(miri), scribble: !cfg!(miri), quarantine: false, cap: 64 << 20 };
             env.apply(hseed);
             crate::ledger::reset();
             rep.ctx = format!("limit-twin history {} mode {} (seed {} shard {} M {})", it, mode, args.seed, args.shard, M);
